@@ -118,7 +118,7 @@ var nulFreeAlphabet = []byte{0x01, 'a', 'b', 0x7F, 0x80, 0xFF}
 
 var collAtoms = []string{
 	"a", "A", "b", "B", "c", "z", "Z", "e", "\u00e9", "\u00e8", "e\u0301", "E", "\u00c9", "o", "\u00f6", "O", "\u00d6", "u", "\u00fc", "\u00df", "ss", "n", "\u00f1", "ch", "ll", "l", "\u00e5", "\u00e4",
-	"0", "1", "2", "9", "10", "12", "007", " ", "-", "_", ".", "\u00ad", "\u200b", "中", "文", "日", "本", "か", "カ", "한", "글", "ก", "ข", "𝒜", "😀", "ａ", "Ａ",
+	"0", "1", "2", "9", "10", "12", "007", " ", "-", "_", ".", "\u00ad", "\u200b", "\u007f", "\u0080", "\u07ff", "\u0800", "\uffff", "\U00010000", "\U0010ffff", "中", "文", "日", "本", "か", "カ", "한", "글", "ก", "ข", "𝒜", "😀", "ａ", "Ａ",
 }
 
 func (g *genTree) remember(k []byte) {
@@ -252,7 +252,11 @@ func (g *genTree) newAlphaKey(r *RNG, fanHeavy bool) []byte {
 		run := pick(r, g.runs)
 		k := clone(run)
 		if r.Chance(1, 5) && len(k) > 0 { // a sibling diverging inside the run
-			k[r.Intn(len(k))] = pick(r, g.alphabet)
+			pos := r.Intn(len(k))
+			if len(k) > 65536 && r.Chance(2, 3) {
+				pos = 65536 + r.Intn(len(k)-65536) // beyond the 64 KiB mark
+			}
+			k[pos] = pick(r, g.alphabet)
 		}
 		if r.Chance(1, 6) && len(k) > 0 {
 			k = k[:r.Intn(len(k))]
@@ -702,7 +706,7 @@ func newGenTree(r *RNG, kt KeyType, val string, lim int) *genTree {
 		nb = len(kt.Schema)
 		if len(kt.Schema) > 0 && kt.Schema[len(kt.Schema)-1] == "str" {
 			switch {
-			case r.Chance(1, 250):
+			case r.Chance(1, 60):
 				g.longStr = bytesOf(r, r.Range(65400, 68000))
 				g.huge = true
 			case r.Chance(1, 20):
